@@ -103,6 +103,9 @@ func (o *Obligation) query(withModel bool) string {
 			pre.WriteString(blk.text)
 		}
 	}
+	if strings.Contains(body, "scontains") && strings.Contains(body, "(sconcat ") && !o.noQuant && !o.nativeStr {
+		pre.WriteString(scontainsConcat)
+	}
 	if c.needStrExt && !o.noQuant && !o.nativeStr {
 		pre.WriteString(strExtAxiom)
 	}
